@@ -211,7 +211,8 @@ Definition repaired : fixes := mkfixes true true true.
 
 (* Size comparisons of one AddFrame call.
    oc_bg   : len(bsBG) < len(bsNone)
-   oc_key  : len(bsKey) < len(bestBS)   (consulted only above 90 % area)
+   oc_key  : the full-canvas key frame was chosen instead of the sub-frame (the code tries it
+             when the sub-frame covers most of the canvas and takes it when it is smaller)
    oc_alt_a/b/c : in mixed mode, the alternate codec was smaller, for the
      first / dispose-background / key-frame encodeFrame call of the step (oc_alt_c: in the
      encode that produced the key frame stored after the 90 % fallback; it repeats the
@@ -312,8 +313,9 @@ Definition encode_sub_frame (fx : fixes) (st : est) (prev curr : canvas) (dur : 
   let bBN := if use_bg then bnB else bnN in
   let bIm := if use_bg then imB else imN in
   let bLossy := codec_lossy op (if use_bg then oc_alt_b o else oc_alt_a o) in
-  let area := (rx1 bR - rx0 bR) * (ry1 bR - ry0 bR) in
-  if (W * H * 9 / 10 <? area) && oc_key o then encode_keyframe st curr dur (oc_alt_c o)
+  (* whether the "would a full-canvas key frame be smaller?" trial is made (area rule) and
+     which way it goes (sizes, ties) are the encoder's choices: oc_key = the key frame was chosen *)
+  if oc_key o then encode_keyframe st curr dur (oc_alt_c o)
   else
     let recs1 := if use_bg then mux_set_dispose_bg (e_recs st) (e_pidx st) else e_recs st in
     let recs2 := mux_add recs1 (rx0 bR) (ry0 bR) bIm bLossy bBN dur in
@@ -398,12 +400,7 @@ Definition add_frame_e (fx : fixes) (keep_dur : bool) (maxf : Z)
           if ef_a fl || full then (set_calls st1, false) else ok
         else if ef_a fl then (set_calls st1, false)
         else
-          let '(rN, _, _) := candidate fx (e_opts st) W H prev curr in
-          let disposed := fill_impl W H prev (e_prect st) in
-          let '(rB, _, _) := candidate fx (e_opts st) W H disposed curr in
-          let bR := if oc_bg o then rB else rN in
-          let area := (rx1 bR - rx0 bR) * (ry1 bR - ry0 bR) in
-          if (W * H * 9 / 10 <? area) && oc_key o then
+          if oc_key o then
             if ef_k fl || full then (set_calls st1, false) else ok
           else if full then
             (* SetFrameDisposeMode has already run when Muxer.AddFrame refuses the frame *)
